@@ -9,7 +9,8 @@ THEOREMS = ['C02_driver_sound', 'C02_certified_table_sound', 'C02_lr0_suffix', '
             'C02_shift_preferred', 'C02_reduce_only_without_shift', 'C02_rr_resolution', 'C02_conflict_iff',
             'C02_la_closure', 'C02_model_table_wf', 'C02_model_table_sound', 'C02_la_complete_child', 'C02_la_complete_reduce', 'C02_complete', 'C02_automaton_complete',
             'C02_lr1_subset_la', 'C02_lr1_exec_subset_la',
-            'C02_read_witness', 'C02_follow_witness', 'C02_la_subset_lr1', 'C02_la_is_lalr1', 'C02_example']
+            'C02_read_witness', 'C02_follow_witness', 'C02_la_subset_lr1', 'C02_la_is_lalr1',
+            'C02_digraph_coded_acyclic', 'C02_digraph_twice_acyclic', 'C02_digraph_twice_aliasing_refuted', 'C02_example']
 GEN_DEPS = []
 RULE = ('random CFGs (<=5 non-terminals, <=4 terminals, <=3 alternatives of length <=3; nullable alternatives, '
         'left/right recursion, shared LR(0) cores, rule priorities, shift/reduce and reduce/reduce conflicts, 1-2 start '
@@ -30,7 +31,7 @@ ASSUMPTIONS = ['token strings are finite lists of terminal numbers; the lexer is
                'rule bodies (false without); additionally evaluated inside Coq by vm_compute against the executable LR/Lr1Merge.v on every '
                'reduced grammar of the streams; completeness for conflict-free tables is a theorem (C02_complete)']
 
-IMPORTS = 'From LV Require Import Cfg.Grammar LR.Driver LR.Automaton LR.AutomatonCheck LR.DriverCheck LR.Lr1Merge.'
+IMPORTS = 'From LV Require Import Cfg.Grammar LR.Driver LR.Automaton LR.AutomatonCheck LR.DriverCheck LR.Lr1Merge LR.Digraph.'
 
 END = '$END'
 
@@ -1140,6 +1141,56 @@ def digraph_stream(ctx):
         m = meta[i]
         ctx.violation('oracle:digraph', dict(kind='digraph', **m), True,
                       'digraph(X,R,G) differs from F x = G x U U{F y | x R y}')
+    digraph_coded_stream(ctx)
+
+
+def digraph_coded_stream(ctx):
+    """lark's digraph()/traverse() against the AS-CODED model LR/Digraph.v (stack, index map, heap of set objects):
+    (a) one call: the result F and the caller's G sets afterwards (F[x] = G[x] aliases them);
+    (b) two calls as in compute_lookaheads - the second call's G is the first call's F, whose SCC members share one set
+        object; here the specification closure differs from the code and the model must agree with the code exactly."""
+    from lark.parsers.lalr_analysis import digraph
+    rng = ctx.rng
+    c1, m1, c2, m2 = [], [], [], []
+    for k in range(ctx.scale(300, 3000)):
+        n = rng.randint(1, 7)
+        X = list(range(n))
+        dens = rng.choice([0.1, 0.25, 0.5])
+        mk = lambda: {x: [y for y in rng.sample(X, n) if rng.random() < dens] for x in X}
+        R1, R2 = mk(), mk()
+        G0 = {x: sorted({rng.randint(0, 5) for _ in range(rng.randint(0, 2))}) for x in X}
+        try:
+            G = {x: set(G0[x]) for x in X}
+            F = digraph(X, R1, G)
+            one = ([sorted(F[x]) for x in X], [sorted(G[x]) for x in X])
+            G = {x: set(G0[x]) for x in X}
+            F1 = digraph(X, R1, G)
+            F2 = digraph(X, R2, F1)
+            two = ([sorted(F1[x]) for x in X], [sorted(F2[x]) for x in X])
+        except Exception as e:  # noqa
+            ctx.violation('digraph-exception', dict(kind='digraph', X=X, R=R1, G=G0, exception=repr(e)), True,
+                          'digraph raised %r' % e)
+            continue
+        cyc1 = has_cycle(X, R1)
+        spec1 = py_closure(X, R1, {x: set(G0[x]) for x in X})
+        spec2 = py_closure(X, R2, spec1)
+        differs = [sorted(spec2[x]) for x in X] != two[1] or [sorted(spec1[x]) for x in X] != two[0]
+        ctx.count('digraph-coded', key=('1', k, n), nontrivial=cyc1, coded_cyclic=cyc1)
+        ctx.count('digraph-coded-twice', key=('2', k, n), nontrivial=differs, aliasing_visible=differs)
+        c1.append('(%s,%s,%s)' % (L(['(%s,%s)' % (c_nats(R1[x]), c_nats(G0[x])) for x in X]),
+                                  L([c_nats(v) for v in one[0]]), L([c_nats(v) for v in one[1]])))
+        m1.append(dict(X=X, R=R1, G=G0, got=one[0]))
+        c2.append('(%s,%s,%s)' % (L(['(%s,%s,%s)' % (c_nats(R1[x]), c_nats(R2[x]), c_nats(G0[x])) for x in X]),
+                                  L([c_nats(v) for v in two[0]]), L([c_nats(v) for v in two[1]])))
+        m2.append(dict(X=X, R1=R1, R2=R2, G=G0, got1=two[0], got2=two[1]))
+    for name, fn, cases, meta in (('c02gc', 'check_digraph_coded', c1, m1), ('c02gt', 'check_digraph_twice', c2, m2)):
+        bad, errs = ctx.coq_bad_indices(name, IMPORTS, fn, cases, chunk=1000)
+        for e in errs:
+            ctx.violation('correspondence:coq-eval', {'error': e[-600:], 'no_longer_checks': 'coq evaluation of %s' % fn}, False, e[-300:])
+        for i in bad:
+            ctx.violation('correspondence:LR/Digraph vs lalr_analysis.digraph', dict(
+                no_longer_checks='as-coded model of digraph/traverse (%s)' % fn, kind='digraph-coded', **meta[i]), False,
+                'the as-coded model of digraph()/traverse() and lark disagree')
 
 
 def py_closure(X, R, G):
